@@ -115,7 +115,7 @@ def nontrivial_graph(ts, cfg):
 
 
 def case_key(case):
-    return json.dumps([(pipe.nt_doc(ts), sorted((k, str(v)) for k, v in cfg.items())) for ts, cfg in case["runs"]],
+    return json.dumps([(pipe.nt_doc(rn[0]), sorted((k, str(v)) for k, v in rn[1].items()), rn[2:]) for rn in case["runs"]],
                       sort_keys=True)
 
 
@@ -150,11 +150,18 @@ _SPEC = None
 def _work(case):
     spec = _SPEC
     impl, model, corr = [], [], []
-    for ts, cfg in case["runs"]:
-        i, m = run_pair(ts, cfg)
+    for rn in case["runs"]:
+        ts, cfg = rn[0], rn[1]
+        kind = rn[2] if len(rn) > 2 else "shexc"
+        if kind == "shexc":
+            i, m = run_pair(ts, cfg)
+            corr.append(spec.projection(i) == spec.projection(m))
+        else:                      # SHACL output / profile_graph: implementation only (not in the pipeline model)
+            i = pipe.impl_other(ts, cfg, kind)
+            m = ("n/a", "")
+            corr.append(True)
         impl.append(i)
         model.append(m)
-        corr.append(spec.projection(i) == spec.projection(m))
     try:
         fails, nitems = spec.oracle(case, impl)
     except Exception as e:  # an oracle crash is an internal error, not a verdict
@@ -162,7 +169,7 @@ def _work(case):
         return {"internal": "oracle crashed: %s %s" % (type(e).__name__, traceback.format_exc()[-600:])}
     out = {"fails": fails, "nitems": nitems, "corr": corr,
            "outcomes": [i[0] if i[0] == "ok" else i[1] for i in impl],
-           "nontrivial": any(nontrivial_graph(ts, cfg) for ts, cfg in case["runs"])}
+           "nontrivial": any(nontrivial_graph(rn[0], rn[1]) for rn in case["runs"])}
     if fails or not all(corr):
         out["impl"] = [list(i) for i in impl]
         out["model"] = [list(m) for m in model]
@@ -186,8 +193,8 @@ def run_property(spec, tier, seed, replay=None, quick_vm=24, thorough_vm=120):
     if replay:
         with open(replay) as f:
             rp = json.load(f)
-        cases = [{"runs": [(tuplify(ts), cfg) for ts, cfg in rp["case"]["runs"]], "meta": rp["case"].get("meta", {})}] \
-            if "case" in rp else []
+        cases = [{"runs": [tuple([tuplify(rn[0]), rn[1]] + list(rn[2:])) for rn in rp["case"]["runs"]],
+                  "meta": rp["case"].get("meta", {})}] if "case" in rp else []
         corpus = []
     else:
         corpus = load_corpus(pid)
@@ -224,8 +231,9 @@ def run_property(spec, tier, seed, replay=None, quick_vm=24, thorough_vm=120):
         if f.get("status") != "known" or "reproducer" not in f:
             continue
         rp = f["reproducer"]
-        case = {"runs": [(tuplify(ts), cfg) for ts, cfg in rp["runs"]], "meta": rp.get("meta", {})}
-        impl = [pipe.impl_shexc(ts, cfg) for ts, cfg in case["runs"]]
+        case = {"runs": [tuple([tuplify(rn[0]), rn[1]] + list(rn[2:])) for rn in rp["runs"]], "meta": rp.get("meta", {})}
+        impl = [pipe.impl_shexc(rn[0], rn[1]) if len(rn) < 3 or rn[2] == "shexc" else pipe.impl_other(rn[0], rn[1], rn[2])
+                for rn in case["runs"]]
         fails, _ = spec.oracle(case, impl)
         if any(rc == f.get("root_cause_tag") for rc, _ in fails):
             run.known_finding(fid, f["what"])
@@ -240,7 +248,7 @@ def run_property(spec, tier, seed, replay=None, quick_vm=24, thorough_vm=120):
         mb = core.ModelBin()
         vcases = []
         for i in idx:
-            ts, cfg = cases[i]["runs"][0]
+            ts, cfg = cases[i]["runs"][0][0], cases[i]["runs"][0][1]
             t = pipe.model_table(ts, cfg)
             vcases.append(("pipe_shexc", t, mb.call("pipe_shexc", t)))
         mb.close()
@@ -251,8 +259,8 @@ def run_property(spec, tier, seed, replay=None, quick_vm=24, thorough_vm=120):
     def payload(k, extra):
         case = cases[k]
         res = results[k]
-        d = {"case": {"runs": [[ts, cfg] for ts, cfg in case["runs"]], "meta": case.get("meta", {})},
-             "documents": [pipe.nt_doc(ts) for ts, _ in case["runs"]],
+        d = {"case": {"runs": [list(rn) for rn in case["runs"]], "meta": case.get("meta", {})},
+             "documents": [pipe.nt_doc(rn[0]) for rn in case["runs"]],
              "impl": res.get("impl"), "model": res.get("model")}
         d.update(extra)
         return d
@@ -317,5 +325,6 @@ def load_corpus(pid):
             if fn.endswith(".json"):
                 with open(os.path.join(d, fn)) as f:
                     rp = json.load(f)
-                out.append({"runs": [(tuplify(ts), cfg) for ts, cfg in rp["runs"]], "meta": rp.get("meta", {"corpus": fn})})
+                out.append({"runs": [tuple([tuplify(rn[0]), rn[1]] + list(rn[2:])) for rn in rp["runs"]],
+                            "meta": rp.get("meta", {"corpus": fn})})
     return out
